@@ -306,6 +306,64 @@ def r05_5(chk):
     chk.floor("R05.5", 3, "Eigen, Taylor, Pade exponentiators")
 
 
+def r05_7(chk):
+    chk.rule("R05.7", "which exponentiator serves a rate matrix depends on that matrix alone: in the selector `_EigenPade.__call__` (expm='either') no attribute that the call itself assigns decides what is returned -- a flag written by one call may only guard the one-off warning; 'eigen was fine for the first Q' says nothing about the next Q (a non-reversible model can move to a defective Q, for which the unchecked eigen path returns matrices whose rows do not sum to one)")
+    m = chk.repo.module("evolve/substitution_calculation.py")
+    q = "_EigenPade.__call__"
+    fn = m.func(q)
+    written = {x.attr for x in walk_no_nested(fn) if isinstance(x, ast.Attribute) and isinstance(x.ctx, ast.Store) and isinstance(x.value, ast.Name) and x.value.id == "self"}
+    bad = None
+    n = 0
+    for st in walk_no_nested(fn):
+        if not isinstance(st, (ast.If, ast.IfExp, ast.While)):
+            continue
+        reads = {x.attr for x in ast.walk(st.test) if isinstance(x, ast.Attribute) and isinstance(x.value, ast.Name) and x.value.id == "self"} & written
+        if not reads:
+            continue
+        n += 1
+        arms = (st.body + st.orelse) if isinstance(st, (ast.If, ast.While)) else [st.body, st.orelse]
+        for a in arms:
+            for x in ast.walk(a):
+                if isinstance(x, (ast.Return, ast.Yield)) or (isinstance(x, ast.Assign) and not all(isinstance(t, ast.Attribute) and t.attr in written for t in x.targets)):
+                    bad = (st, sorted(reads))
+    k = key(m, q, "selection independent of earlier calls")
+    if bad:
+        chk.violation("R05.7", k, m.loc(bad[0]), f"`if {norm(bad[0].test)}` reads {bad[1]}, which an earlier call of the same selector wrote, and decides what is returned: the exponentiator used for Q depends on the matrices seen before")
+    else:
+        chk.ok("R05.7", k, m.loc(fn), f"state written by the call ({sorted(written)}) guards only the warning", nontrivial=bool(written))
+    # the checked path is tried on every call
+    from ..cfg import build
+
+    g = build(fn)
+    tries = g.nodes_containing(lambda x: isinstance(x, ast.Call) and norm(x.func) == "self.eigen")
+    rets = [nd for nd in g.nodes if isinstance(getattr(nd, "ast", None), ast.Return) and not any(isinstance(h, ast.ExceptHandler) and any(nd.ast is y for y in ast.walk(h)) for h in walk_no_nested(fn))]
+    okp = bool(tries) and all(g.dominated_by(r_, tries, kinds=("n",))[0] for r_ in rets)
+    chk.decide(okp, "R05.7", key(m, q, "checked eigen attempted for every Q"), m.loc(fn), "every non-handler return is dominated by self.eigen(Q)", "a return outside the exception handler is reachable without calling self.eigen(Q): that Q is exponentiated without the check")
+    chk.floor("R05.7", 2, "_EigenPade.__call__")
+
+
+def r05_8(chk):
+    chk.rule("R05.8", "rate-class multipliers average to one only when `rate` is a partitioned parameter: _make_bin_param_defn returns a plain per-bin ParamDefn (free, unnormalised) for a name that is not in partitioned_params, and make_distance_defn asks it for 'rate' whenever with_rate is set -- so the constructor must put 'rate' among the partitioned parameters whenever with_rate is true (it does the converse: 'rate' partitioned => with_rate)")
+    m = chk.repo.module("evolve/substitution_model.py")
+    mk = m.func("_ContinuousSubstitutionModel._make_bin_param_defn")
+    free = [st for st in walk_no_nested(mk) if isinstance(st, ast.If) and "not in self.partitioned_params" in norm(st.test) and any(isinstance(r, ast.Return) and isinstance(r.value, ast.Call) and call_name(r.value) == "ParamDefn" for r in st.body)]
+    dist = m.func("_ContinuousSubstitutionModel.make_distance_defn")
+    asks = [c for c in walk_no_nested(dist) if isinstance(c, ast.Call) and norm(c.func) == "self._make_bin_param_defn" and c.args and isinstance(c.args[0], ast.Constant) and c.args[0].value == "rate"]
+    init = m.func("_ContinuousSubstitutionModel.__init__")
+    k = key(m, "_ContinuousSubstitutionModel.__init__", "with_rate implies rate is partitioned")
+    if not free or not asks:
+        chk.ok("R05.8", k, m.loc(init), "no unnormalised per-bin branch reachable for 'rate'", nontrivial=False)
+    else:
+        ensures = False
+        for st in walk_no_nested(init):
+            if isinstance(st, ast.If) and "with_rate" in norm(st.test):
+                for x in ast.walk(st):
+                    if isinstance(x, (ast.Assign, ast.AugAssign)) and "partitioned_params" in norm(x.targets[0] if isinstance(x, ast.Assign) else x.target) and any(isinstance(c_, ast.Constant) and c_.value == "rate" for c_ in ast.walk(x.value)):
+                        ensures = True
+        chk.decide(ensures, "R05.8", k, m.loc(asks[0]) if not ensures else m.loc(init), "'rate' is added to partitioned_params under with_rate", "with_rate=True without 'rate' among the partitioned parameters (e.g. get_model('HKY85', with_rate=True), or ordered_param='kappa') makes the per-bin rate a free, unnormalised parameter: lf.set_param_rule('rate', bin='bin0', value=3.0) and bin1=2.0 with bprobs [0.5, 0.5] is accepted -- mean rate 2.5, so a branch length is no longer the expected number of substitutions per site")
+    chk.floor("R05.8", 1, "constructor")
+
+
 def r05_6(chk):
     chk.rule("R05.6", "GeneralStationary keeps pi stationary by construction: each last-in-column rate is SOLVED from the balance equation (row_total - col_total) / pi_i and used as solved -- it may be replaced by its absolute value only when it is numerically zero (allclose), and a negative solution means the free rates admit no stationary process at this pi, which is refused with ParameterOutOfBoundsError; clamping it (max(..., 0), clip, unconditional abs) returns a Q for which pi Q != 0 while the model still declares itself stationary")
     m = chk.repo.module("evolve/ns_substitution_model.py")
@@ -332,6 +390,8 @@ def r05_6(chk):
 
 
 def run(chk):
+    r05_8(chk)
+    r05_7(chk)
     r05_6(chk)
     r05_5(chk)
     r05_1(chk)
